@@ -45,12 +45,19 @@ type AuthEntry struct {
 	DB   string `json:"db"`
 	User string `json:"user"`
 	PW   string `json:"pw"`
-	Out  string `json:"out"` // accept | reject | fail
+	Out  string `json:"out"` // accept | reject | fail | failtrue
+	// Next, when set, is the outcome from the second time this entry matches on
+	// (a password that was revoked after an earlier successful login)
+	Next string `json:"next,omitempty"`
 }
 
 // MWSpec is one session middleware.
 type MWSpec struct {
 	Fail bool `json:"fail,omitempty"`
+	// Cancel: the middleware derives a cancellable session context; a statement
+	// program's "cancel" op cancels it (a session time limit that expires while
+	// a statement runs)
+	Cancel bool `json:"cancel,omitempty"`
 }
 
 // ConnCase is the client side of one connection.
@@ -61,6 +68,10 @@ type ConnCase struct {
 	NoEOF   bool       `json:"noeof,omitempty"`  // after the last step the peer stays silent instead of closing (E2 only)
 	TLS     *TLSClient `json:"tlsclient,omitempty"`
 	Measure bool       `json:"measure,omitempty"` // sample allocation counters at quiescence points
+	// MeasureLive samples, at quiescence points, the memory in use by goroutine
+	// stacks and (after a forced collection) by live heap objects: what a long
+	// run of small messages may make grow
+	MeasureLive bool `json:"measure_live,omitempty"`
 }
 
 // Step is a flight of client messages delivered together; the next step is
@@ -77,11 +88,15 @@ type Step struct {
 // bytes delivered before the peer vanishes), write-err (At = index of the Write
 // call, Bytes accepted before failing), write-err-transient (that one write
 // fails, later ones succeed), empty-read (At = Read call that returns 0,nil),
-// write-stall (E2: the At-th Write never completes: the peer stopped reading).
+// write-stall (E2: the At-th Write never completes: the peer stopped reading),
+// write-slow (the peer stalls for Ms simulated milliseconds inside the At-th
+// Write and then resumes; if the server armed a write deadline that expires
+// meanwhile, Bytes bytes are accepted and the write fails with a timeout).
 type Fault struct {
 	Kind  string `json:"kind"`
 	At    int    `json:"at"`
 	Bytes int    `json:"bytes,omitempty"`
+	Ms    int    `json:"ms,omitempty"` // write-slow: how long the peer stalls (simulated milliseconds)
 }
 
 // TLSClient describes a real crypto/tls client goroutine (engine E2).
@@ -105,6 +120,9 @@ type SchedCase struct {
 	Schedule []int32  `json:"schedule,omitempty"` // replay vector (decision k = ready[schedule[k] mod n])
 	Closers  []Closer `json:"closers,omitempty"`
 	MaxSteps int      `json:"maxsteps,omitempty"`
+	// CloseFirst: one Close call runs to completion before Serve is called at
+	// all (`go srv.Serve(l)` overtaken by an early Close)
+	CloseFirst bool `json:"close_first,omitempty"`
 }
 
 // Hold parks Task at Point until Until has passed UntilPoint (or cannot run).
